@@ -97,6 +97,22 @@ theorem c03_idle_agv_claims_nothing {ec : EnvCfg} {st : RewardStatic} (hst : Sta
   obtain ⟨_, _, _, hS⟩ := exposed_inv hst h
   exact hS.freeNoClaim t ht hi
 
+/-- **An AGV that is not carrying holds nothing** (in particular an idle one); one in transit holds
+exactly one job of the shop. -/
+theorem c03_agv_holding {ec : EnvCfg} {st : RewardStatic} (hst : Start orc inst s0)
+    (h : Exposed orc inst ec st s0 σ) (t : TransportState) (ht : t ∈ σ.transports) :
+    (t.st ≠ .transit → t.buffer.store = []) ∧ (t.st = .transit → ∃ j ∈ σ.jobs, t.buffer.store = [j.id]) :=
+  ⟨(exposed_agv hst h).empty t ht, (exposed_agv hst h).holds t ht⟩
+
+/-- **A job is claimed by at most one AGV**, and what an AGV claims is a job of the shop. -/
+theorem c03_claim_unique {ec : EnvCfg} {st : RewardStatic} (hst : Start orc inst s0)
+    (h : Exposed orc inst ec st s0 σ) (t1 t2 : TransportState) (h1 : t1 ∈ σ.transports) (h2 : t2 ∈ σ.transports)
+    (x : Nat) (hx1 : t1.job = some x) (hx2 : t2.job = some x) : t1 = t2 ∧ ∃ j ∈ σ.jobs, j.id = x := by
+  have hA := exposed_agv hst h
+  obtain ⟨w, hI, _⟩ := exposed_inv hst h
+  exact ⟨eq_of_mem_of_key_eq (key := fun (y : TransportState) => y.id) (hI.shape.trNodup w) h1 h2 (hA.unique t1 h1 t2 h2 x hx1 hx2),
+    hA.claimed t1 h1 x hx1⟩
+
 /-- non-vacuity: a compiled 2×2 instance with one AGV satisfies the guard -/
 example : initOKB Ex.inst Ex.s0 = true := Ex.initOK
 
